@@ -468,7 +468,15 @@ class Evaluator:
                 env[k] = v
             if isinstance(f.node, ast.Lambda):
                 return self.ev(f.node.body, env)
-            return self.run_body(f.node.body, env)
+            try:
+                return self.run_body(f.node.body, env)
+            finally:
+                # `nonlocal x`: the enclosing function's variable is the one assigned
+                for st_ in f.node.body:
+                    if isinstance(st_, ast.Nonlocal):
+                        for nm_ in st_.names:
+                            if nm_ in env:
+                                f.env[nm_] = env[nm_]
         import typing as _t
 
         if callable(f) and (f in _SAFE_BUILTINS.values() or getattr(f, "__self__", None) is not None
@@ -544,6 +552,11 @@ class Evaluator:
                     except Exception as e:
                         raise Unknown(f"del {ast.unparse(t)[:60]}: {e}")
                 continue
+            if isinstance(st, (ast.FunctionDef,)) and not st.decorator_list:
+                env[st.name] = Closure(st, env)   # a nested function: a closure over the enclosing variables (by reference, as in Python)
+                continue
+            if isinstance(st, (ast.Nonlocal, ast.Global)):
+                continue
             if isinstance(st, ast.Pass):
                 continue
             if isinstance(st, ast.Return):
@@ -603,10 +616,27 @@ class Evaluator:
                         break
                 continue
             if isinstance(st, ast.Try):
-                # the abstract run takes the no-exception path (an EvalRaised outcome propagates to the caller of the evaluator)
-                self._exec(st.body, env)
-                self._exec(st.orelse, env)
-                self._exec(st.finalbody, env)
+                # exceptions of the abstract run (EvalRaised, by class name) are dispatched to the handlers the way Python does: first handler whose
+                # class is the raised class or one of its bases (builtin hierarchy; a class the evaluator does not know derives from Exception)
+                try:
+                    try:
+                        self._exec(st.body, env)
+                    except EvalRaised as exc:
+                        h = self._handler_for(st.handlers, exc, env)
+                        if h is None:
+                            raise
+                        if h.name:
+                            env[h.name] = f"{exc.exc_name}: {exc.args[1] if len(exc.args) > 1 else ''}".rstrip(": ")
+                        self._current_exc = getattr(self, "_current_exc", []) + [exc]
+                        try:
+                            self._exec(h.body, env)
+                        finally:
+                            self._current_exc.pop()
+                    else:
+                        self._exec(st.orelse, env)
+                finally:
+                    if st.finalbody:
+                        self._exec(st.finalbody, env)
                 continue
             if isinstance(st, ast.Expr) and isinstance(st.value, ast.Call) and isinstance(st.value.func, ast.Attribute) and isinstance(st.value.func.value, ast.Name) \
                     and st.value.func.attr in ("sort", "reverse") and isinstance(env.get(st.value.func.value.id), list):
@@ -635,6 +665,8 @@ class Evaluator:
                 continue
             if isinstance(st, ast.Raise):
                 nm = None
+                if st.exc is None and getattr(self, "_current_exc", None):
+                    raise self._current_exc[-1]   # bare `raise` inside a handler
                 if st.exc is not None:
                     e_ = st.exc.func if isinstance(st.exc, ast.Call) else st.exc
                     nm = ast.unparse(e_)
@@ -655,6 +687,29 @@ class Evaluator:
                 self.ev(st.value, env)   # an expression statement: evaluated for its effects on the abstract run's own objects (a call the evaluator cannot follow is Unknown)
                 continue
             raise Unknown(f"statement kind {type(st).__name__} outside the fragment")
+
+    @staticmethod
+    def _exc_matches(raised: str, caught: str) -> bool:
+        import builtins
+
+        r_, c_ = raised.rsplit(".", 1)[-1], caught.rsplit(".", 1)[-1]
+        if r_ == c_ or c_ == "BaseException":
+            return True
+        rc, cc = getattr(builtins, r_, None), getattr(builtins, c_, None)
+        if isinstance(cc, type) and issubclass(cc, BaseException):
+            if isinstance(rc, type) and issubclass(rc, BaseException):
+                return issubclass(rc, cc)
+            return cc is Exception   # a library / user exception class: derives from Exception as far as the evaluator knows
+        return False
+
+    def _handler_for(self, handlers, exc, env):
+        for h in handlers:
+            if h.type is None:
+                return h
+            names = [ast.unparse(t) for t in (h.type.elts if isinstance(h.type, ast.Tuple) else [h.type])]
+            if any(self._exc_matches(exc.exc_name, n_) for n_ in names):
+                return h
+        return None
 
     class _Continue(Exception):
         pass
